@@ -131,7 +131,7 @@ pub fn def() -> CheckDef {
         id: "C07",
         rule: "proptest: suffix-sharing packets (as C03, crossing 16 KiB) written with build_bytes_vec_compressed and with write_compressed_to on a cursor starting at offset k>0; an independent schema-aware walker locates every name occurrence (question, owner, RDATA names by type) and checks: every pointer strictly backwards, <= 16383, onto a label start of an earlier-written name, relative to the first byte of the message; reference decoding gives the model's names; no pointer inside SRV/NAPTR/KX/RRSIG/NSEC/IPSECKEY/SVCB/HTTPS names; a question/owner/RFC 1035 RDATA name already written in full at an offset <= 16383 is a single 2-byte pointer. Non-trivial = at least one pointer in the output",
         assumptions: vec!["RP/AFSDB/RT/NSAP-PTR names (RFC 1183/1348) are class 'may': compressed or not is accepted", "same exclusions as C02"],
-        sections: vec![Box::new(PropSection { name: "pointers", rule: "pointer validity and use", strategy, cases: (40_000, 600_000), check })],
+        sections: vec![Box::new(PropSection { name: "pointers", rule: "pointer validity and use", strategy, cases: (200_000, 1_500_000), check })],
     }
 }
 
